@@ -128,6 +128,30 @@ theorem C01_plain_attrs_exactly_written (o : Opts) (env : Env) (c : Bool) (hon :
     · rw [i3, s3]
     · rw [i4, s4]
 
+theorem specPlainKV_is_kv (a kv : Node) (h : specPlainKV a = some kv) : ∃ k v, kv = nKV (nStr k) v := by
+  unfold specPlainKV at h
+  split at h
+  · rename_i as nameN v
+    split at h
+    · cases h
+    · simp only [] at h
+      cases hN : attrNameOf nameN <;> cases hv : specPlainValue v <;> simp [hN, hv] at h
+      all_goals exact ⟨_, _, h.symm⟩
+  · cases h
+
+/-- **C01, the whole element, mergeProps off**: an element whose attributes are all plain receives as its props argument the
+    object literal of exactly the denoted entries, in source order - no `mergeProps` call, nothing imported. -/
+theorem C01_plain_element_props_object (o : Opts) (env : Env) (c : Bool) (hon : o.transformOn = false) (hmp : o.mergeProps = false)
+    (a : Node) (rest : List Node) (st : St) (h : ∀ x ∈ a :: rest, (specPlainKV x).isSome = true) :
+    (transformAttrs o env (a :: rest) c st).1.attrs = nObject ((a :: rest).filterMap specPlainKV) := by
+  have hw := C01_plain_attrs_exactly_written o env c hon (a :: rest) {} st h
+  simp only [] at hw
+  obtain ⟨h1, h2, -, -⟩ := hw
+  obtain ⟨kv, hkv⟩ := Option.isSome_iff_exists.mp (h a List.mem_cons_self)
+  obtain ⟨k, v, rfl⟩ := specPlainKV_is_kv a kv hkv
+  simp only [transformAttrs, assembleProps, h1, h2]
+  simp [hkv, hmp, nKV]
+
 -- non-vacuity (tests, labelled as tests): three plain attributes, one namespaced, one value-less
 private def tP (n : String) (v : Node) : Node := .mk .jsxAttr [] [.mk .ident [n] [], v]
 private def tNs (a b : String) (v : Node) : Node :=
